@@ -277,10 +277,75 @@ def main():
         elif k == 3:
             b = r.pick(["(pointer %s)", "(view %s)"]) % vary(r, base)
         pairs.append((a, b))
+    # access paths: a random well-formed type, a random valid path of [index] / .member steps on it, and the type the typer
+    # demands of the variable for that path (Types/Paths.lean: `elaborate`, `demanded`; re-implemented here to build the
+    # pair).  `access_path_accepted` says the variable's type is a concretization of it; the real relation must say so too.
+    demanded_pairs = set()
+
+    def rand_inner(r, depth):
+        if depth == 0 or r.chance(1, 3):
+            return r.pick(["i32", "u8", "(struct 1)", "(struct 2)", "(word 1 8)", "bool"])
+        return r.pick(["(array 2 %s)", "(array 3 %s)", "(named 1 %s)", "(endless %s)", "(pointer %s)"]) % rand_inner(r, depth - 1)
+
+    def parse_ty(t):
+        toks = t.replace("(", " ( ").replace(")", " ) ").split()
+
+        def go(i):
+            if toks[i] != "(":
+                return toks[i], i + 1
+            head = toks[i + 1]
+            j = i + 2
+            args = []
+            while toks[j] != ")":
+                a, j = go(j)
+                args.append(a)
+            return (head, args), j + 1
+        return go(0)[0]
+
+    def show_ty(x):
+        return x if isinstance(x, str) else "(%s %s)" % (x[0], " ".join(show_ty(a) for a in x[1]))
+
+    def demanded_for(r, t):
+        """walk a random valid path from type t (parsed); returns the demanded type (parsed) or None"""
+        def peel(x):
+            pre = []
+            while not isinstance(x, str) and x[0] in ("pointer", "view"):
+                pre.append(x[0])
+                x = x[1][-1]
+            return pre, x
+
+        def wrap(pre, inner):
+            for c in reversed(pre):
+                inner = (c, [inner])
+            return inner
+        pre, x = peel(t)
+        if isinstance(x, str) or r.chance(1, 6):
+            return wrap([], "i32") if False else None
+        if x[0] in ("array", "named", "endless", "slice", "sliceptr"):
+            sub = demanded_for(r, x[1][-1])
+            inner = ("arraylike", [sub if sub is not None else x[1][-1]])
+            return wrap(pre, inner)
+        if x[0] in ("struct", "word"):
+            return wrap(pre, "unresolved")
+        return None
+    for i in range(20000 if thorough else 4000):
+        r = rng.fork("path%d" % i)
+        t = rand_inner(r, 1 + r.below(3))
+        t = r.pick(["%s", "%s", "(slice %s)", "(sliceptr %s)", "(view %s)"]) % t
+        d = demanded_for(r, parse_ty(t))
+        if d is not None:
+            demanded_pairs.add(len(pairs))
+            pairs.append((t, show_ty(d)))
+            dist["access-path-demanded"] += 1
     am = run_model(["agree\t(agree %s %s)" % ab for ab in pairs])
     ah2 = run_harness(["agree\t%s\t%s" % ab for ab in pairs])
-    for (a, b), ma, ha in zip(pairs, am, ah2):
+    for k, ((a, b), ma, ha) in enumerate(zip(pairs, am, ah2)):
         total += 1
+        if k in demanded_pairs and "conc=1" not in ha:
+            rep.violation("access-path:%s:%s" % (a, b), {
+                "why": "a valid access path on a variable of type %s makes the typer demand %s of it, and the type is NOT a "
+                       "concretization of that (theorem Types.Ty.access_path_accepted says it is): the access would be rejected" % (a, b),
+                "types": [a, b], "implementation": ha, "model": ma})
         dist["agree-relations:" + ("same" if a == b else "different") + ":" + ma.replace("declared=", "d").replace(" conc=", "c").replace(" coerce=", "o").replace(" coerceaddr=", "a").replace(" autoderef=", "r")] += 1
         if ma == ha and not ma.startswith("bad"):
             agreeing += 1
